@@ -332,6 +332,27 @@ def coq_run(chk, pid, body, names):
 HEADER = C.COQ_CASE_HEADER + "From Raven Require Import Base.Enum Model.Search Model.SearchText Spec.Search Model.SearchClass Spec.SearchCheck.\nLocal Open Scope Z_scope.\n"
 
 
+ZONES = [0, 0, -5 * 3600, 5 * 3600 + 1800, 14 * 3600, -12 * 3600, -7 * 3600, 3600, 9 * 3600, -(3 * 3600 + 1800), 12 * 3600 + 2700]
+
+
+def zone_str(off):
+    return "%s%02d%02d" % ("+" if off >= 0 else "-", abs(off) // 3600, (abs(off) % 3600) // 60)
+
+
+def rand_zone_time(rng):
+    """(hh, mi, offset seconds): mostly a local time whose UTC calendar day differs
+    from the local one (within the offset's distance of midnight)"""
+    off = rng.choice(ZONES)
+    r = rng.random()
+    if off > 0 and r < 0.7:
+        mins = rng.randint(0, min(off // 60, 1440) - 1)               # local time < offset: UTC is the previous day
+    elif off < 0 and r < 0.7:
+        mins = 1440 - rng.randint(1, min(-off // 60, 1440))           # local time >= 24h - |offset|: UTC is the next day
+    else:
+        mins = rng.randint(0, 1439)
+    return mins // 60, mins % 60, off
+
+
 def rand_flags(rng):
     fl = ["\\" + f for f in SYSFLAGS if rng.random() < 0.3]
     fl += [k for k in KEYWORDS if rng.random() < 0.15]
@@ -351,11 +372,11 @@ def direct_suites(chk, n_eval, n_raw, n_tok):
         d = (rng.choice([2019, 2020, 2024]), rng.randint(1, 12), rng.randint(1, 28))
         ctx = Ctx(n, uids, fl, [], [], [d, (2020, 2, 28)], [], text_keys=False)
         ks = g_prog(rng, ctx)
-        m = {"uid": uids[i - 1], "flags": fl, "text": "", "idate": d}
+        m = {"uid": uids[i - 1], "flags": fl, "text": "", "idate": d, "zt": rand_zone_time(rng)}
         evs.append({"ks": ks, "text": print_prog(ks), "n": n, "maxuid": uids[-1], "i": i, "m": m})
     for _ in range(n_raw):
         fl = rand_flags(rng)
-        m = {"uid": rng.randint(1, 9), "flags": fl, "text": "", "idate": (2020, rng.randint(1, 3), rng.randint(1, 28))}
+        m = {"uid": rng.randint(1, 9), "flags": fl, "text": "", "idate": (2020, rng.randint(1, 3), rng.randint(1, 28)), "zt": rand_zone_time(rng)}
         raws.append({"text": g_soup(rng), "i": rng.randint(1, 5), "m": m})
     toks = [g_soup(rng, False) + rng.choice(["", " ", '"', "(", ")"]) for _ in range(n_tok)]
     seqs = []
@@ -373,20 +394,25 @@ def direct_suites(chk, n_eval, n_raw, n_tok):
         y, mo, d = rng.choice([2019, 2020, 2021]), rng.randint(1, 12), rng.randint(1, 28)
         ds = rng.choice(["%d-%s-%d" % (rng.randint(0, 32), rng.choice(MONTHS + ["jan", "FEB", "Foo"]), rng.choice([2019, 2020, 2021, 20, 20200])),
                          "%02d-%s-%04d" % (d, MONTHS[mo - 1], y), "29-Feb-2020", "29-Feb-2019", "31-Apr-2020", "1-Jan-2020 ", "", "1-1-2020", '"1-Jan-2020"'])
-        dates.append(((y, mo, d), ds, rng.choice(["BEFORE", "ON", "SINCE"])))
+        if rng.random() < 0.6:
+            # target on the message's own day or an adjacent one: the zone must not move the day
+            dd = d + rng.choice([-1, 0, 0, 1])
+            if 1 <= dd <= 28:
+                ds = "%d-%s-%d" % (dd, MONTHS[mo - 1], y)
+        dates.append(((y, mo, d), ds, rng.choice(["BEFORE", "ON", "SINCE"]), rand_zone_time(rng)))
 
     def mcall(e):
         m = e["m"]
-        return {"a": [" ".join(m["flags"]), C.latin(e["text"].encode("latin-1"))], "n": [e["i"], m["uid"]] + list(m["idate"])}
+        return {"a": [" ".join(m["flags"]), C.latin(e["text"].encode("latin-1"))], "n": [e["i"], m["uid"]] + list(m["idate"]) + list(m["zt"])}
     ops = [
-        {"op": "batch", "fn": "evalCriteriaDate", "cases": [mcall(e) for e in evs]},
-        {"op": "batch", "fn": "evalCriteriaDate", "cases": [mcall(e) for e in raws]},
+        {"op": "batch", "fn": "evalCriteriaZone", "cases": [mcall(e) for e in evs]},
+        {"op": "batch", "fn": "evalCriteriaZone", "cases": [mcall(e) for e in raws]},
         {"op": "batch", "fn": "parseSearchTokens", "cases": [{"a": [C.latin(t.encode("latin-1"))]} for t in toks]},
         {"op": "batch", "fn": "isSequenceSet", "cases": [{"a": [s]} for (_, s) in seqs]},
         {"op": "batch", "fn": "matchesSequenceSet", "cases": [{"a": [s], "n": [n]} for (n, s) in seqs]},
         {"op": "batch", "fn": "headerContains", "cases": [{"a": [C.latin(r), f, s]} for (r, f, s) in hdrs]},
         {"op": "batch", "fn": "hasHeader", "cases": [{"a": [C.latin(r), f]} for (r, f, s) in hdrs]},
-        {"op": "batch", "fn": "matchesDate", "cases": [{"a": [ds, c], "n": list(d)} for (d, ds, c) in dates]},
+        {"op": "batch", "fn": "matchesDateZone", "cases": [{"a": [ds, c], "n": list(d) + list(zt)} for (d, ds, c, zt) in dates]},
         {"op": "batch", "fn": "unquote", "cases": [{"a": [C.latin(t.encode("latin-1"))]} for t in toks]},
     ]
     res = C.run_ops(ops, timeout=600)
@@ -426,7 +452,7 @@ def direct_suites(chk, n_eval, n_raw, n_tok):
     body += "Definition hc_bad := Eval vm_compute in diff_positions Bool.eqb 0 (map (fun '(r,f,s,a,b) => a) hdrs) (map (fun '(r,f,s,a,b) => header_contains r f s) hdrs).\nPrint hc_bad.\n"
     body += "Definition hh_bad := Eval vm_compute in diff_positions Bool.eqb 0 (map (fun '(r,f,s,a,b) => b) hdrs) (map (fun '(r,f,s,a,b) => has_header r f) hdrs).\nPrint hh_bad.\n"
     body += "Definition dates : list (date * str * dcmp * bool) := [\n%s].\n" % ";\n".join(
-        "(%s, %s, C%s, %s)" % (c_date(d), C.coq_str(ds), c.capitalize(), C.coq_bool(r is True)) for (d, ds, c), r in zip(dates, r_md))
+        "(%s, %s, C%s, %s)" % (c_date(d), C.coq_str(ds), c.capitalize(), C.coq_bool(r is True)) for (d, ds, c, zt), r in zip(dates, r_md))
     body += "Definition md_bad := Eval vm_compute in diff_positions Bool.eqb 0 (map (fun '(d,s,c,r) => r) dates) (map (fun '(d,s,c,r) => matches_date d s c) dates).\nPrint md_bad.\n"
     out = coq_run(chk, "C19d", body, ["ev_bad", "raw_bad", "tok_bad", "unq_bad", "isseq_bad", "mseq_bad", "hc_bad", "hh_bad", "md_bad"])
     if out is None:
@@ -442,16 +468,20 @@ BODY = ["body text one", "The quick brown fox\r\njumps over the lazy dog", "see 
 
 
 def gen_date_header(rng):
-    y, mo, d = rng.choice([2006, 2019, 2020]), rng.randint(1, 12), rng.randint(1, 28)
+    """Date: value and the calendar date AS WRITTEN (RFC 3501: time and zone are disregarded).
+    Zones include +1400 / -1200; most times lie within the offset's distance of midnight,
+    so that the UTC calendar day differs from the written one."""
+    y, mo, d = rng.choice([2006, 2019, 2020, 2024]), rng.randint(1, 12), rng.randint(1, 28)
     wd = rng.choice(["Mon", "Tue", "Wed", "Thu", "Fri", "Sat", "Sun"])
-    hms = "%02d:%02d:%02d" % (rng.randint(0, 23), rng.randint(0, 59), rng.randint(0, 59))
+    hh, mi, off = rand_zone_time(rng)
+    hms = "%02d:%02d:%02d" % (hh, mi, rng.randint(0, 59))
     r = rng.random()
-    if r < 0.55:
-        return "%s, %02d %s %04d %s %s" % (wd, d, MONTHS[mo - 1], y, hms, rng.choice(["+0000", "-0700", "+0530"])), (y, mo, d)
-    if r < 0.7:
+    if r < 0.65:
+        return "%s, %02d %s %04d %s %s" % (wd, d, MONTHS[mo - 1], y, hms, zone_str(off)), (y, mo, d)
+    if r < 0.75:
         return "%s, %02d %s %04d %s %s" % (wd, d, MONTHS[mo - 1], y, hms, rng.choice(["GMT", "UTC", "MST"])), (y, mo, d)
-    if r < 0.85:
-        return "%02d %s %04d %s +0000" % (d, MONTHS[mo - 1], y, hms), (y, mo, d)        # no day of week
+    if r < 0.88:
+        return "%02d %s %04d %s %s" % (d, MONTHS[mo - 1], y, hms, zone_str(off)), (y, mo, d)        # no day of week
     return "%s, %d %s %04d %s +0000" % (wd, rng.randint(1, 9), MONTHS[mo - 1], y, hms), (y, mo, d)  # one-digit day
 
 
@@ -601,6 +631,15 @@ def run_sessions(chk, n_sessions, n_progs):
                 a, b = sorted([r2.randint(1, max(ctx.uids) + 1), r2.randint(1, max(ctx.uids) + 1)])
                 ks = r2.choice([[("all",)], [("uid", [("range", str(a), str(b))])], [("uid", [("one", str(a))])], [("uid", [("range", str(a), "*")])]])
             progs.append({"ks": ks, "text": print_prog(ks), "uid": uid_mode})
+        for (y, mo, d) in sent[:4]:
+            dd = d + r2.choice([-1, 0, 0, 1])
+            if not 1 <= dd <= 28:
+                dd = d
+            sd = (str(dd), mo, "%04d" % y)
+            c = r2.choice(["BEFORE", "ON", "SINCE"])
+            k = ("date", True, c, sd)
+            for ks in ([k], [("not", k)], [("or", k, ("date", True, "ON", (str(d), mo, "%04d" % y)))]):
+                progs.append({"ks": ks, "text": print_prog(ks), "uid": False})
         raws = [{"text": t, "uid": u} for (t, u) in [
             ("CHARSET UTF-8 ALL", False), ("CHARSET us-ascii SEEN", False), ("CHARSET KOI8-R ALL", False), ("CHARSET", False),
             ("CHARSET UTF-8", False), ("charset latin1 FROM a", False), ("", False), ("", True), ("all", True), ("uid 1:3 seen", True),
@@ -653,7 +692,7 @@ def eval_sessions(chk, sessions, pid="C19s"):
 # ---------------------------------------------------------------- decision
 
 def jsonable_mb(mb):
-    return [{"uid": m["uid"], "flags": m["flags"], "text": m["text"].decode("latin-1") if isinstance(m["text"], bytes) else m["text"], "idate": list(m["idate"])} for m in mb]
+    return [{"uid": m["uid"], "flags": m["flags"], "text": m["text"].decode("latin-1") if isinstance(m["text"], bytes) else m["text"], "idate": list(m["idate"]), "zt": list(m.get("zt", (12, 0, 0)))} for m in mb]
 
 
 def decide(chk, what, code, payload, stats):
@@ -683,7 +722,8 @@ def decide(chk, what, code, payload, stats):
 
 
 def replay_witnesses(chk):
-    """known-finding witnesses: replayed on the implementation every run"""
+    """known-finding witnesses and regression scenarios: replayed on the implementation every run"""
+    paths, scen, ws = [], [], []
     for path in sorted(glob.glob(os.path.join(C.VERIF, "corpus", "C19", "*.json"))):
         w = json.load(open(path))
         if w.get("kind") != "session":
@@ -695,13 +735,17 @@ def replay_witnesses(chk):
             ops.append({"op": "send", "conn": "c", "data": C.latin(raw) + "\r\n", "until": "tag:p%d" % i})
         ops.append(cmd("a2", "SELECT INBOX"))
         ops.append(cmd("w1", w["command"]))
-        r = C.run_ops(ops)
+        paths.append(path)
+        scen.append(ops)
+        ws.append(w)
+    for path, w, r in zip(paths, ws, C.run_many(scen)):
         if r.get("crashed"):
             chk.broken_obligation("driver crashed replaying %s" % path)
             continue
         got = parse_reply(C.unlatin(r["obs"][-1].get("recv", "")), "w1")
         exp = w["expected"]
-        good = (got[0] == "ok" and exp[0] == "ok" and list(got[1]) == list(exp[1])) or (exp[0] == "error" and got[0] in ("no", "bad")) or (exp[0] == "reply" and got[0] in ("ok", "no", "bad"))
+        good = ((got[0] == "ok" and exp[0] == "ok" and list(got[1]) == list(exp[1])) or (exp[0] == "error" and got[0] in ("no", "bad"))
+                or (exp[0] == "reply" and got[0] in ("ok", "no", "bad")))
         if not good:
             chk.violation("%s: %s answered %s, specification: %s" % (w["class"], w["command"], got, exp),
                           {"suite": "witness", "file": os.path.basename(path), "got": got}, cls=w["class"])
@@ -718,7 +762,7 @@ def run(chk):
     for v in out["ev_bad"]:
         i, code = v >> 8, v & 255
         e = d["evs"][i]
-        decide(chk, "criteria %r on message seq=%d uid=%d flags=%r (mailbox of %d, max uid %d): implementation says %r" % (e["text"], e["i"], e["m"]["uid"], e["m"]["flags"], e["n"], e["maxuid"], e["impl"]),
+        decide(chk, "criteria %r on message seq=%d uid=%d flags=%r (mailbox of %d, max uid %d), internal date %s %02d:%02d %s: implementation says %r" % (e["text"], e["i"], e["m"]["uid"], e["m"]["flags"], e["n"], e["maxuid"], "-".join(map(str, e["m"]["idate"])), e["m"]["zt"][0], e["m"]["zt"][1], zone_str(e["m"]["zt"][2]), e["impl"]),
                code, {"suite": "eval", "case": {"text": e["text"], "i": e["i"], "n": e["n"], "maxuid": e["maxuid"], "m": jsonable_mb([e["m"]])[0]}, "impl": e["impl"]}, stats)
     for v in out["raw_bad"]:
         e = d["raws"][v >> 8]
@@ -731,6 +775,12 @@ def run(chk):
         for i in out[name][:3]:
             nd += 1
             c = cases[i]
+            if name == "md_bad":
+                (dt, ds, cmpk, zt) = c
+                chk.violation("matchesDate: internal date %04d-%02d-%02d %02d:%02d in zone %s against %s %r: implementation says %r, the calendar date as written (RFC 3501: time and zone are disregarded; c19_search_exact) says the opposite"
+                              % (dt[0], dt[1], dt[2], zt[0], zt[1], zone_str(zt[2]), cmpk, ds, d["dates"][1][i]),
+                              {"suite": "date", "date": list(dt), "zone_time": list(zt), "target": ds, "cmp": cmpk, "impl": d["dates"][1][i]})
+                continue
             if name in ("hc_bad", "hh_bad", "unq_bad", "tok_bad") and any(ord(ch) > 127 for ch in str(c)):
                 chk.notes.append("domain edge (non-ASCII bytes, outside the ASCII model of ToUpper/TrimSpace): %s %r" % (label, c))
                 continue
@@ -804,5 +854,7 @@ def replay(path):
     elif d.get("suite") == "eval":
         c = d["case"]
         m = c["m"]
-        print(C.run_ops([{"op": "call", "fn": "evalCriteriaDate", "a": [" ".join(m["flags"]), c["text"]], "n": [c["i"], m["uid"]] + m["idate"]}]))
+        print(C.run_ops([{"op": "call", "fn": "evalCriteriaZone", "a": [" ".join(m["flags"]), c["text"]], "n": [c["i"], m["uid"]] + m["idate"] + m.get("zt", [12, 0, 0])}]))
+    elif d.get("suite") == "date":
+        print(C.run_ops([{"op": "call", "fn": "matchesDateZone", "a": [d["target"], d["cmp"]], "n": d["date"] + d["zone_time"]}]))
     return 0
